@@ -544,6 +544,49 @@ async fn c16_reannounce(ctx: Ctx, writer_side: bool) {
     }
 }
 
+// ---- C13 -----------------------------------------------------------------------------------------------------------
+/// announcements with octet sequences around and beyond what a 16 bit parameter length can carry: whatever is announced
+/// must decode back on the other side, and must not garble the parameters that follow it (the partition)
+async fn c13_large_user_data(ctx: Ctx, len: usize) {
+    let f = ctx.factory("", None);
+    let n1 = node::<KeyedData>(&f, 0, "T").await;
+    let n2 = node::<KeyedData>(&f, 0, "T").await;
+    let mut pq = PublisherQos::default();
+    pq.partition.name = vec!["A".to_string()];
+    let publ = n1.participant.create_publisher(QosKind::Specific(pq.clone()), NO_LISTENER, NO_STATUS).await.expect("publisher");
+    let mut sq = SubscriberQos::default();
+    sq.partition.name = vec!["A".to_string()];
+    let subs = n2.participant.create_subscriber(QosKind::Specific(sq), NO_LISTENER, NO_STATUS).await.expect("subscriber");
+    let mut wq = reliable_w(HistoryQosPolicyKind::KeepAll, Some(100));
+    wq.user_data.value = (0..len).map(|i| (i % 251) as u8).collect();
+    let w = match publ.create_datawriter::<KeyedData>(&n1.topic, QosKind::Specific(wq.clone()), NO_LISTENER, NO_STATUS).await {
+        Ok(w) => w,
+        Err(e) => {
+            ctx.obs(format!("writer with {len} octets of user data refused: {e:?}"));
+            return;
+        }
+    };
+    let r = subs.create_datareader::<KeyedData>(&n2.topic, QosKind::Specific(reliable_r(HistoryQosPolicyKind::KeepAll)), NO_LISTENER, NO_STATUS).await.expect("reader");
+    if !wait_sub_matched(&ctx, &r, 1, 4000).await {
+        ctx.violation(format!("large-user-data/{len}/not-matched"), format!("a writer with {len} octets of user data in partition A was not matched by a reader in partition A (announcement lost or its later parameters garbled)"));
+        return;
+    }
+    let hs = r.get_matched_publications().await.unwrap_or_default();
+    let Some(h) = hs.first() else { return };
+    match r.get_matched_publication_data(*h).await {
+        Ok(d) => {
+            if d.user_data().value != wq.user_data.value {
+                ctx.violation(format!("large-user-data/{len}/decoded-differently"), format!("announced {len} octets of user data, the matched publication data holds {} octets", d.user_data().value.len()));
+            }
+            if d.partition().name != pq.partition.name {
+                ctx.violation(format!("large-user-data/{len}/following-parameter-garbled"), format!("partition decoded as {:?}", d.partition().name));
+            }
+        }
+        Err(e) => ctx.violation(format!("large-user-data/{len}/no-publication-data/{e:?}"), "get_matched_publication_data failed"),
+    }
+    let _ = w;
+}
+
 // ---- C36 -----------------------------------------------------------------------------------------------------------
 async fn c36_content_filtered_topic(ctx: Ctx) {
     let f = ctx.factory("", None);
@@ -578,14 +621,14 @@ async fn c36_content_filtered_topic(ctx: Ctx) {
 /// every sequence of register / write / lookup on 3 keys against a writer with max_instances = 2, max_samples = 3,
 /// max_samples_per_instance = 2 (no reader: nothing is ever acknowledged away), compared with a plain reference model:
 /// an operation that would exceed a limit returns OutOfResources and changes nothing (added after seeded change C19-2)
-async fn c19_writer_limits(ctx: Ctx, keep_last: Option<u32>, depth: usize) {
+async fn c19_writer_limits(ctx: Ctx, keep_last: Option<u32>, depth: usize, max_samples: u32) {
     let f = ctx.factory("", None);
     let p = f.create_participant(0, QosKind::Default, NO_LISTENER, NO_STATUS).await.expect("participant");
     let t = p.create_topic::<KeyedData>("T", "T", QosKind::Default, NO_LISTENER, NO_STATUS).await.expect("topic");
     let publ = p.create_publisher(QosKind::Default, NO_LISTENER, NO_STATUS).await.expect("publisher");
     let mut wq = reliable_w(match keep_last { Some(d) => HistoryQosPolicyKind::KeepLast(d), None => HistoryQosPolicyKind::KeepAll }, Some(50));
     wq.resource_limits.max_instances = Length::Limited(2);
-    wq.resource_limits.max_samples = Length::Limited(3);
+    wq.resource_limits.max_samples = Length::Limited(max_samples as i32);
     wq.resource_limits.max_samples_per_instance = Length::Limited(2);
     let w = publ.create_datawriter::<KeyedData>(&t, QosKind::Specific(wq), NO_LISTENER, NO_STATUS).await.expect("writer");
     // reference: registered keys (in order) and stored samples per key
@@ -620,7 +663,7 @@ async fn c19_writer_limits(ctx: Ctx, keep_last: Option<u32>, depth: usize) {
                 let need_instance = !registered.contains(&k);
                 let n_k = *stored.get(&k).unwrap_or(&0);
                 let replace = matches!(keep_last, Some(dd) if n_k == dd);
-                let exp_ok = !(need_instance && registered.len() >= 2) && (replace || (n_k < 2 && total < 3));
+                let exp_ok = !(need_instance && registered.len() >= 2) && (replace || (n_k < 2 && total < max_samples));
                 let got = w.write(d, None).await;
                 match (&got, exp_ok) {
                     (Ok(()), true) => {
@@ -633,7 +676,7 @@ async fn c19_writer_limits(ctx: Ctx, keep_last: Option<u32>, depth: usize) {
                     }
                     (Err(DdsError::OutOfResources), false) => {}
                     _ => {
-                        ctx.violation(format!("writer-limits/write/expected={}/got={}", if exp_ok { "Ok" } else { "OutOfResources" }, short(&got)), format!("history {hist:?} (limits 2 instances, 3 samples, 2 per instance; registered {registered:?}, stored {stored:?})"));
+                        ctx.violation(format!("writer-limits/write/expected={}/got={}", if exp_ok { "Ok" } else { "OutOfResources" }, short(&got)), format!("history {hist:?} (limits 2 instances, {max_samples} samples, 2 per instance; registered {registered:?}, stored {stored:?})"));
                         return;
                     }
                 }
@@ -805,8 +848,16 @@ pub fn extra(id: &str) -> Vec<Scenario> {
         // the resource limits; the same enumeration serves both properties)
         "C19" | "C28" => {
             for (kl, n) in [(None, "keep-all"), (Some(1u32), "keep-last-1"), (Some(2), "keep-last-2")] {
-                let depth = if thorough { 6 } else { 5 };
-                add(n.into(), Scenario::new(format!("{id}.writer-limits[{n},depth={depth}]"), 99, move |ctx| c19_writer_limits(ctx, kl, depth)).cfg(|c| c.keep_logs = false));
+                // max_samples 3: the instance limit binds first; 2: a write of a NEW instance is refused by max_samples
+                for ms in [3u32, 2] {
+                    let depth = if thorough { 6 } else { 5 };
+                    add(n.into(), Scenario::new(format!("{id}.writer-limits[{n},max_samples={ms},depth={depth}]"), 99, move |ctx| c19_writer_limits(ctx, kl, depth, ms)).cfg(|c| c.keep_logs = false));
+                }
+            }
+        }
+        "C13" => {
+            for len in [65_000usize, 65_528, 65_532, 65_536, 70_000] {
+                add("ud".into(), Scenario::new(format!("C13.audit[user-data,len={len}]"), 0, move |ctx| c13_large_user_data(ctx, len)).cfg(|c| c.step_cap = 5_000_000));
             }
         }
         "C36" => add("cft".into(), Scenario::new("C36.audit[content-filtered-topic]".to_string(), 0, c36_content_filtered_topic)),
